@@ -353,8 +353,9 @@ func (r *Run) solveAll() {
 			if r.Dump != "" {
 				os.WriteFile(filepath.Join(r.Dump, sanitize(o.Name)+".smt2"), []byte(script), 0o644)
 			}
-			if o.Size > 8000000 {
-				o.Res = Result{Status: "error", Raw: "VC size cap exceeded"}
+			if o.Size > 12000000 {
+				// too large for one query: left undecided here, the path-by-path stage takes it
+				o.Res = Result{Status: "oversize", Raw: "VC size cap exceeded"}
 				return
 			}
 			tmo := r.Tmo
